@@ -66,6 +66,8 @@ def gen_cases(tier, rng):
         extra.append(c2)
         c3 = dict(c, throttle=rng.choice([64, 256]))
         extra.append(c3)
+        # a backend whose read() hands out fewer bytes than asked for (any file-like object may): the file ends at the empty read
+        extra.append(dict(c, short=rng.choice([1, 3, 7, 4096])))
     big = []
     for n in ([8191, 8192, 8193] if tier == "quick" else [0, 1, 8191, 8192, 8193, 16384, 16385, 24576]):
         P = [(k * 7 + 3) % 256 for k in range(n)]
@@ -79,6 +81,8 @@ def run_case(c):
     kw = {}
     if c["throttle"]:
         kw = {"server_kwargs": {"read_speed_limit": c["throttle"], "write_speed_limit": c["throttle"]}}
+    if c.get("short"):
+        kw["short_reads"] = c["short"]
     cfg = gen.std_cfg(ns=2, users=users, block=c["B"], backend=c["backend"], **kw)
     tree = {"d": [["A"]], "f": ([{"p": ["A", "t"], "c": c["E"]}] if c["existed"] else [])}
     res = {}
